@@ -134,6 +134,8 @@ func (h *Header) decode(data []byte) error {
 		h.SubPackageSum = binary.BigEndian.Uint16(data[start+phoneLen+2 : start+phoneLen+4])
 		h.SubPackageNo = binary.BigEndian.Uint16(data[start+phoneLen+4 : start+phoneLen+6])
 		end += 4
+	} else {
+		h.SubPackageSum, h.SubPackageNo = 0, 0
 	}
 	h.headEnd = end
 	return nil
@@ -170,9 +172,7 @@ func (p *BodyProperty) decode(data []byte) {
 	p.bit14 = byte((attribute >> 14) & 0b1) // 第14位 协议版本 0-2013 1-2019
 	p.Version = p.bit14
 	p.PacketFragmented = byte((attribute >> 13) & 0b1) // 第13位 分包
-	if p.PacketFragmented == 1 {
-		p.isSubPackage = true
-	}
+	p.isSubPackage = p.PacketFragmented == 1           // 复用同一个对象解析时 不能保留上一帧的分包标识
 	p.EncryptMethod = uint8((attribute & 0x400) >> 10) // 第10-12位 加密方式 0-不加密 1-RSA
 	p.BodyDayaLen = attribute & 0x3FF                  // 最低10位 消息体长度 3=011 F=1111
 }
